@@ -165,9 +165,17 @@ def write_table(df, path):
         df.to_csv(path, index=False, encoding='utf-8')
 
 
-def run_cli(argv, stdin_text=None):
-    """In-process CLI run: (status, stdout, stderr); status 0 / int / 'exc'."""
-    from tdda.constraints.console import main_with_argv
+def run_cli(argv, stdin_text=None, entry='main_with_argv'):
+    """In-process CLI run: (status, stdout, stderr); status 0 / int / 'exc'.
+    entry='main' goes through console.main() (what the `tdda` script and
+    `python -m tdda.constraints.console` call) with sys.argv set."""
+    from tdda.constraints import console
+    if entry == 'main':
+        def main_with_argv(av):
+            sys.argv[:] = av
+            return console.main()
+    else:
+        main_with_argv = console.main_with_argv
     so, se, si = sys.stdout, sys.stderr, sys.stdin
     sys.stdout, sys.stderr = io.StringIO(), io.StringIO()
     if stdin_text is not None:
@@ -309,6 +317,19 @@ def run(case, ctx):
                                     for a in argv), so[-200:], se[-200:]))
         if os.path.exists(target):
             out.violate('errors-leave-no-output', e,
+                        '%s exists after the failed invocation'
+                        % os.path.basename(target))
+            os.remove(target)
+        # the same through the real entry point, console.main()
+        status, so, se, raised = run_cli(argv, entry='main')
+        if status == 0:
+            out.violate('errors-exit-nonzero', e + ':main()',
+                        'console.main() with argv %s returned normally '
+                        '(exit status 0); stdout %r stderr %r'
+                        % (' '.join(os.path.basename(a) if os.sep in a else a
+                                    for a in argv), so[-200:], se[-200:]))
+        if os.path.exists(target):
+            out.violate('errors-leave-no-output', e + ':main()',
                         '%s exists after the failed invocation'
                         % os.path.basename(target))
         if use_sub:
